@@ -11,7 +11,11 @@ var collOrder = vkit.NewCollector("C07", "TestOrder", "one goroutine publishes i
 
 var collBurst = vkit.NewCollector("C07", "TestBurst", "one goroutine publishes 2-6 bursts of 20-400 events back to back to 1-2 Async+Sequential handlers (a long line of dispatch goroutines forms behind each handler; drawn per-event work, drawn GOMAXPROCS) and calls Wait after each burst. Oracle = no overlap (CAS), every handler has processed exactly 0..k in order when Wait returns, and Wait returns: events outstanding while no handler is running and no counter moving for 40 s is reported as lost delivery. Non-trivial = bursts of >=50 events.")
 
+var collLines = vkit.NewCollector("C07", "TestIndependentLines", "2-4 Async+Sequential handlers of one event type, subscribed with fresh option values or with one reused option list, plain or context-aware, events published directly or through the static type any, drawn GOMAXPROCS; the first handler blocks inside its first invocation while 1-8 events are published. Oracle: the other handlers receive every event, in order, while the first one is still blocked (15 s, confirmed on a second run), and after it is released every handler has processed 0..n-1 in order. Non-trivial = at least two events.")
+
 func TestMain(m *testing.M) { vkit.Main(m) }
+
+func TestIndependentLines(t *testing.T) { vkit.Check(t, collLines, GenLines, RunLines) }
 
 func TestOverlap(t *testing.T) { vkit.Check(t, collOverlap, GenOverlap, RunOverlap) }
 func TestBurst(t *testing.T)   { vkit.Check(t, collBurst, GenBurst, RunBurst) }
@@ -19,5 +23,5 @@ func TestOrder(t *testing.T)   { vkit.Check(t, collOrder, GenOrder, RunOrder) }
 
 func TestReplay(t *testing.T) {
 	r := vkit.NeedReplay(t)
-	_ = vkit.ReplayCase(t, r, collOverlap, RunOverlap) || vkit.ReplayCase(t, r, collOrder, RunOrder) || vkit.ReplayCase(t, r, collBurst, RunBurst)
+	_ = vkit.ReplayCase(t, r, collOverlap, RunOverlap) || vkit.ReplayCase(t, r, collOrder, RunOrder) || vkit.ReplayCase(t, r, collBurst, RunBurst) || vkit.ReplayCase(t, r, collLines, RunLines)
 }
